@@ -50,7 +50,7 @@ class WishartPrior(Prior):
         super(WishartPrior, self).__init__(batch_shape, event_shape, validate_args=validate_args)
         # now need to delete to be able to register buffer
         del self.nu, self.K_inv, self.C
-        self.register_buffer("nu", nu)
+        self.register_buffer("nu", nu.clone())
         self.register_buffer("K_inv", K_inv)
         self.register_buffer("C", C)
 
@@ -100,8 +100,8 @@ class InverseWishartPrior(Prior):
         super(InverseWishartPrior, self).__init__(batch_shape, event_shape, validate_args=validate_args)
         # now need to delete to be able to register buffer
         del self.nu, self.K, self.C
-        self.register_buffer("nu", nu)
-        self.register_buffer("K", K)
+        self.register_buffer("nu", nu.clone())
+        self.register_buffer("K", K.clone())
         self.register_buffer("C", C)
 
     def log_prob(self, X):
